@@ -221,7 +221,7 @@ def sizes(L, spec):
 
 
 @proof("C04", "bounded/preserve-and-shared-edges-on-unequal-lengths", level="B", samples=60,
-       cases=[(p, f) for p in ("start_size", "end_size", "c2c_expansion") for f in ("aligned", "flipped", "flipped-then-aligned", "aligned-then-flipped", "flipped-then-flipped")],
+       cases=[(p, f) for p in ("start_size", "end_size", "c2c_expansion") for f in ("aligned", "flipped", "flipped-then-aligned", "aligned-then-flipped", "flipped-then-flipped", "aligned; graded, vertex moved, written")],
        functions=[MG + "WireChopManager.grade", "classy_blocks.grading.chop:Chop.copy_preserving", "classy_blocks.items.wires.axis:Axis.copy_grading"],
        note="bounded stand-in only: a loft between differently scaled/jittered faces (four unequal parallel edges) next to a second "
             "block that is numbered the same way or flipped; realised sizes decoded from Wire.grading with the wire length")
@@ -265,6 +265,16 @@ def preserve_bounded(ctx):
         mesh.add(op3)
     mesh.assemble()
     mesh.grade()
+    if "vertex moved" in flip:
+        # the mesh was graded, then a vertex is moved (as optimisation does): what is written belongs to the geometry written
+        mesh.blocks[0].vertices[6].translate(np.array([0.05, -0.04, 0.3]))
+        mesh.blocks[0].vertices[4].translate(np.array([0.0, 0.0, -0.25]))
+        fd, path = tempfile.mkstemp(suffix=".bmd")
+        os.close(fd)
+        try:
+            mesh.write(path)
+        finally:
+            os.remove(path)
     b1, b2 = mesh.blocks[:2]
     ax = b1.axes[2]
     for w in ax.wires:
